@@ -86,7 +86,7 @@ def c12_script(rng, stype, scen):
     return {"scen": scen, "sock": stype, "ops": ops}
 
 
-SUBSYNC_OPS = ["sub:a", "sub:b", "unsub:a", "unsub:b", "join", "joinG", "fail1", "check"]
+SUBSYNC_OPS = ["sub:a", "sub:ab", "unsub:a", "unsub:ab", "join", "joinG", "fail1", "check"]
 
 
 def c13_script(seq, scen):
